@@ -34,6 +34,16 @@ CLAIMED["C17"] = dict(
    note="Partial by nature: the Go memory model, net/http and protobuf internals are not modelled; the race detector and the isolation comparison are search, not proof. Trusted: Coq kernel, the runner.",
    technique="Coq proof (invariant over all interleavings) + race-detector soak with isolation comparison",
    ref="§5.C17")
+CLAIMED["C12"] = dict(
+   text="Coq model of the generation-time validators and their wiring (coq/theories/Validate.v: unwrap table over all generated files first, then per file enum / nullable / empty_behavior / timestamp_format / bytes_encoding / flatten incl. the sequential name-collision scan and the MarshalJSON-conflict test / oneof_discriminator / HTTP configuration, first error wins; go-client = the same passes minus unwrap and HTTP; ts-server path/coverage checks) against an independent declarative statement of the documented rules (broken_rules). Theorems C12_sound, C12_sound_client, C12_any_placement, C12_complete for ALL schemas outside six gap classes, each gap with a refutation. Every run builds rule x placement (top-level, nested, service-less generated file, imported file) x surrounding-content requests plus near-miss valid definitions, several-rules-at-once requests and the valid corpora, runs the five plugins from the working tree and compares accepted/refused, error family, offender named, files-with-error with the model evaluated in Coq; the oracle uses only the plugins' answers and the case's declared rule.",
+   note="Trusted: Coq kernel + vm_compute; the hand-written model tied by this run's cases (sampled schemas); the rule list itself (Spec) is a reading of the property text and docs; error family is recognised by the annotation keyword in the message text. protogen's own refusals (missing go_package etc.) are C16's subject.",
+   technique="Coq proof (validator scan = declarative rule, both directions) + plugin-boundary correspondence by vm_compute",
+   ref="§5.C12")
+CLAIMED["C14"] = dict(
+   text="Coq model of which files each Go plugin emits per proto file and which types get a MarshalJSON/UnmarshalJSON pair from which emitter (coq/theories/Files.v, incl. the client's early return for service-less files and its missing unwrap emitter); theorems C14_same_name_same_codec, C14_client_only_equiv (outside two defect classes a client-only package has exactly the server package's codec pairs), C14_order_independent, with refutations. Every run (a) compares the emitted file names of both plugins, in order, with the model on the feature catalogue, service-less variants, generate_mock variants and C12's accepted/refused requests, (b) checks directly that same-named files are byte-identical after the generator header line, (c) builds a client-only and a server-only Go package per feature schema and compares marshalled JSON documents and decoded messages for the same values.",
+   note="Byte identity of same-named files and codec behaviour are checked on the implementation only (no codec semantics in the model: that is C04/C05); the model predicts file sets and which types carry their own MarshalJSON. Packages that do not compile (C13's subject) are not driven. Trusted: Coq kernel + vm_compute, the hand-written model tied by sampled schemas, the scenario runner.",
+   technique="Coq proof over the file/method-set model + direct byte comparison + client-only vs server-only package behaviour",
+   ref="§5.C14")
 REASONS = {}
 def main():
     checks = []
